@@ -26,6 +26,7 @@ from anytree import (
 )
 from anytree import cachedsearch, search, util
 from anytree.exporter import DictExporter, DotExporter, JsonExporter, MermaidExporter, UniqueDotExporter
+from anytree.importer import DictImporter, JsonImporter
 
 NAV_ATTRS = (
     "path",
@@ -310,6 +311,19 @@ def battery(world, snap, qseed, heavy=True, exporters=True, helpers=True, part=N
         attriter = lambda attrs: [(k, v) for k, v in sorted(attrs) if k == "name"]  # noqa: E731
         add(("dict", s, outcome(lambda: DictExporter(attriter=attriter).export(nodes[s]))))
         add(("json", s, outcome(lambda: JsonExporter(DictExporter(attriter=attriter), sort_keys=True).export(nodes[s]))))
+        # importers build a tree of the universe's own node class (node-typed arguments all the way)
+        cls = type(nodes[s])
+        if not hasattr(cls, "target"):
+            def roundtrip(use_json):
+                data = DictExporter(attriter=attriter).export(nodes[s])
+                if use_json:
+                    root = JsonImporter(DictImporter(nodecls=cls)).import_(JsonExporter(DictExporter(attriter=attriter)).export(nodes[s]))
+                else:
+                    root = DictImporter(nodecls=cls).import_(data)
+                return DictExporter(attriter=attriter).export(root) == data, type(root).__name__ == cls.__name__
+
+            add(("import-dict", s, outcome(lambda: roundtrip(False))))
+            add(("import-json", s, outcome(lambda: roundtrip(True))))
         fset = frozenset(i for i in range(n) if rng.random() < 0.2)
         sset = frozenset(i for i in range(n) if rng.random() < 0.15)
         ml = rng.choice((None, None, 1, 2, 3))
